@@ -378,6 +378,8 @@ def _n5_function(fn: ast.AST):
                         continue        # a fresh container: an object with identity, not a value
                     if any(isinstance(x, ast.Slice) for x in ast.walk(s.value)):
                         continue        # a slice is a fresh container too
+                    if sum(1 for _ in ast.walk(s.value)) > 40:
+                        continue        # keep the canonical form readable (and the rewriting cheap)
                     # every load of v lies in a later statement of this block
                     later = b[i + 1:]
                     inside = {id(x) for st in later for x in ast.walk(st)}
@@ -520,5 +522,336 @@ def normalise_local_more(tree: ast.AST):
     _n7(tree)
 
 
+import os as _os
+import re as _re
+
+_KNOWN: Optional[Set[str]] = None
+
+
+def known_names() -> Set[str]:
+    """Identifiers the rules mention: anchors are never looked through."""
+    global _KNOWN
+    if _KNOWN is None:
+        here = _os.path.dirname(_os.path.abspath(__file__))
+        names: Set[str] = set()
+        files = [_os.path.join(here, 'facts.py'), _os.path.join(here, 'registry.py'), _os.path.join(here, '..', 'known_findings.json')]
+        rd = _os.path.join(here, 'rules')
+        files += [_os.path.join(rd, f) for f in _os.listdir(rd) if f.endswith('.py')]
+        for f in files:
+            try:
+                names |= set(_re.findall(r'[A-Za-z_][A-Za-z0-9_]*', open(f, encoding='utf8').read()))
+            except OSError:
+                pass
+        # ... and every function that existed when the rules were confirmed against the tree (frozen list): the rules were
+        # written with those helpers as they are; only helpers that appear later are looked through
+        try:
+            import json as _json
+            names |= set(_json.load(open(_os.path.join(here, 'frozen_names.json'), encoding='utf8')))
+        except OSError:
+            pass
+        _KNOWN = names
+    return _KNOWN
+
+
+def _params(fn: ast.FunctionDef) -> Optional[List[ast.arg]]:
+    a = fn.args
+    if a.vararg or a.kwarg or a.kwonlyargs:
+        return None
+    return list(a.posonlyargs) + list(a.args)
+
+
+def _is_static(fn: ast.FunctionDef) -> bool:
+    return any(isinstance(d, ast.Name) and d.id == 'staticmethod' for d in fn.decorator_list)
+
+
+def _collect_defs(trees: Dict[str, ast.Module]):
+    funcs: Dict[str, List[tuple]] = {}        # simple name -> [(module, fn)]   module-level functions
+    classes: Dict[str, List[tuple]] = {}      # simple name -> [(module, cls)]
+    methods: Dict[str, List[tuple]] = {}      # method name -> [(module, cls, fn)]
+    for mname, tree in trees.items():
+        for n in tree.body:
+            if isinstance(n, ast.FunctionDef):
+                funcs.setdefault(n.name, []).append((mname, n))
+            elif isinstance(n, ast.ClassDef):
+                classes.setdefault(n.name, []).append((mname, n))
+        for c in ast.walk(tree):
+            if isinstance(c, ast.ClassDef):
+                for m in c.body:
+                    if isinstance(m, ast.FunctionDef):
+                        methods.setdefault(m.name, []).append((mname, c, m))
+    return funcs, classes, methods
+
+
+def _class_ctor_params(cls: ast.ClassDef, classes) -> Optional[List[str]]:
+    """Positional parameter names of Class(...): its own __init__, a dataclass's fields, or the single package base's."""
+    seen = 0
+    c = cls
+    while c is not None and seen < 6:
+        seen += 1
+        for m in c.body:
+            if isinstance(m, ast.FunctionDef) and m.name == '__init__':
+                ps = _params(m)
+                return [p.arg for p in ps[1:]] if ps is not None else None
+        if any('dataclass' in ast.unparse(d) for d in c.decorator_list):
+            fields: List[str] = []
+            chain = [c]
+            for b in c.bases:
+                if isinstance(b, ast.Name) and len(classes.get(b.id, [])) == 1:
+                    chain.insert(0, classes[b.id][0][1])
+            for k in chain:
+                for st in k.body:
+                    if isinstance(st, ast.AnnAssign) and isinstance(st.target, ast.Name) and not ast.unparse(st.annotation).startswith('ClassVar'):
+                        if st.target.id not in fields:
+                            fields.append(st.target.id)
+            return fields
+        nxt = None
+        for b in c.bases:
+            bn = b.id if isinstance(b, ast.Name) else None
+            if bn and len(classes.get(bn, [])) == 1:
+                nxt = classes[bn][0][1]
+                break
+        c = nxt
+    return None
+
+
+def _p1(trees: Dict[str, ast.Module]):
+    funcs, classes, methods = _collect_defs(trees)
+
+    def sig_by_name(name: str) -> Optional[List[str]]:
+        sigs = []
+        for _m, fn in funcs.get(name, []):
+            ps = _params(fn)
+            sigs.append(None if ps is None else [p.arg for p in ps])
+        for _m, cls in classes.get(name, []):
+            sigs.append(_class_ctor_params(cls, classes))
+        if not sigs or any(x is None for x in sigs) or any(x != sigs[0] for x in sigs):
+            return None
+        return sigs[0]
+
+    def sig_by_method(name: str) -> Optional[List[str]]:
+        sigs = []
+        for _m, _c, fn in methods.get(name, []):
+            ps = _params(fn)
+            if ps is None:
+                return None
+            sigs.append([p.arg for p in (ps if _is_static(fn) else ps[1:])])
+        for _m, fn in funcs.get(name, []):
+            return None        # a function and a method share the name: ambiguous for attribute calls through modules
+        if not sigs or any(x != sigs[0] for x in sigs):
+            return None
+        return sigs[0]
+
+    for tree in trees.values():
+        for c in ast.walk(tree):
+            if not isinstance(c, ast.Call) or not c.keywords or any(k.arg is None for k in c.keywords) \
+                    or any(isinstance(a, ast.Starred) for a in c.args):
+                continue
+            if isinstance(c.func, ast.Name):
+                sig = sig_by_name(c.func.id)
+            elif isinstance(c.func, ast.Attribute):
+                sig = sig_by_method(c.func.attr)
+                if sig is None and isinstance(c.func.value, ast.Name) and c.func.attr != '__init__':
+                    # Class.method(...) / module.function(...)
+                    sig = None
+            else:
+                sig = None
+            if sig is None:
+                continue
+            kws = {k.arg: k for k in c.keywords}
+            if not set(kws) <= set(sig):
+                continue
+            pos = len(c.args)
+            while pos < len(sig) and sig[pos] in kws:
+                c.args.append(kws.pop(sig[pos]).value)
+                pos += 1
+            c.keywords = [k for k in c.keywords if k.arg in kws]
+
+
+class _Subst(ast.NodeTransformer):
+    def __init__(self, mapping: Dict[str, ast.AST]):
+        self.mapping = mapping
+
+    def visit_Name(self, n):
+        if isinstance(n.ctx, ast.Load) and n.id in self.mapping:
+            return _copy.deepcopy(self.mapping[n.id])
+        return n
+
+
+def _helper_shape(fn: ast.FunctionDef):
+    """('expr', expr) for `return <expr>` bodies, ('stmts', [stmts], ret_expr or None) for single-exit statement bodies."""
+    body = [s for s in fn.body if not isinstance(s, ast.Pass)]
+    if not body or len(body) > 30:
+        return None
+    for x in ast.walk(fn):
+        if isinstance(x, (ast.Yield, ast.YieldFrom, ast.Await, ast.Global, ast.Nonlocal)):
+            return None
+        if x is not fn and isinstance(x, (ast.FunctionDef, ast.AsyncFunctionDef, ast.ClassDef, ast.Lambda)):
+            return None
+    rets = [x for x in ast.walk(fn) if isinstance(x, ast.Return)]
+    if len(body) == 1 and isinstance(body[0], ast.Return) and body[0].value is not None:
+        return ('expr', body[0].value)
+    if not rets:
+        return ('stmts', body, None)
+    if len(rets) == 1 and rets[0] is body[-1]:
+        return ('stmts', body[:-1], rets[0].value)
+    return None
+
+
+def _p2(trees: Dict[str, ast.Module]) -> int:
+    known = known_names()
+    funcs, classes, methods = _collect_defs(trees)
+    n_inlined = 0
+
+    def candidate(fn: ast.FunctionDef) -> bool:
+        nm = fn.name
+        if not nm.startswith('_') or nm.startswith('__') or nm in known:
+            return False
+        if any(not (isinstance(d, ast.Name) and d.id in ('staticmethod', 'classmethod')) for d in fn.decorator_list):
+            return False
+        if _params(fn) is None:
+            return False
+        for x in ast.walk(fn):       # not recursive
+            if isinstance(x, ast.Call) and ((isinstance(x.func, ast.Name) and x.func.id == nm)
+                                            or (isinstance(x.func, ast.Attribute) and x.func.attr == nm)):
+                return False
+        return _helper_shape(fn) is not None
+
+    def bind(fn: ast.FunctionDef, call: ast.Call, recv: Optional[ast.AST]) -> Optional[Dict[str, ast.AST]]:
+        ps = _params(fn)
+        names = [p.arg for p in ps]
+        mapping: Dict[str, ast.AST] = {}
+        if recv is not None:
+            if not names:
+                return None
+            mapping[names[0]] = recv
+            names = names[1:]
+        if any(isinstance(a, ast.Starred) for a in call.args) or any(k.arg is None for k in call.keywords):
+            return None
+        if len(call.args) > len(names):
+            return None
+        for nme, a in zip(names, call.args):
+            mapping[nme] = a
+        for k in call.keywords:
+            if k.arg not in names or k.arg in mapping:
+                return None
+            mapping[k.arg] = k.value
+        defaults = fn.args.defaults
+        allp = [p.arg for p in ps]
+        for i, d in enumerate(defaults):
+            pn = allp[len(allp) - len(defaults) + i]
+            mapping.setdefault(pn, d)
+        if any(nme not in mapping for nme in names):
+            return None
+        return mapping
+
+    def resolve(mname: str, cls: Optional[ast.ClassDef], call: ast.Call):
+        """(helper fn, receiver expr or None) for a call that can be looked through."""
+        f = call.func
+        if isinstance(f, ast.Name):
+            cands = [fn for m_, fn in funcs.get(f.id, []) if m_ == mname]
+            if len(cands) == 1 and candidate(cands[0]):
+                return cands[0], None
+            return None
+        if isinstance(f, ast.Attribute):
+            defs = methods.get(f.attr, [])
+            if len(defs) != 1 or funcs.get(f.attr):
+                return None
+            m_, c_, fn = defs[0]
+            if m_ != mname or not candidate(fn):
+                return None
+            if _is_static(fn):
+                return fn, None
+            is_cm = any(isinstance(d, ast.Name) and d.id == 'classmethod' for d in fn.decorator_list)
+            if is_cm and not (isinstance(f.value, ast.Name) and f.value.id in ('cls', c_.name)):
+                return None
+            return fn, f.value
+        return None
+
+    for mname, tree in trees.items():
+        # (enclosing class, function) pairs
+        work = []
+        for n in ast.walk(tree):
+            if isinstance(n, ast.ClassDef):
+                for m in n.body:
+                    if isinstance(m, ast.FunctionDef):
+                        work.append((n, m))
+        for n in tree.body:
+            if isinstance(n, ast.FunctionDef):
+                work.append((None, n))
+        for cls, fn in work:
+            for _round in range(3):
+                changed = False
+                # expression helpers anywhere
+                class ExprInline(ast.NodeTransformer):
+                    def visit_Call(self_, c):
+                        nonlocal changed, n_inlined
+                        self_.generic_visit(c)
+                        r = resolve(mname, cls, c)
+                        if r is None or r[0] is fn:
+                            return c
+                        shape = _helper_shape(r[0])
+                        if shape is None or shape[0] != 'expr':
+                            return c
+                        mp = bind(r[0], c, r[1])
+                        if mp is None:
+                            return c
+                        changed = True
+                        n_inlined += 1
+                        return _Subst(mp).visit(_copy.deepcopy(shape[1]))
+                ExprInline().visit(fn)
+                # statement helpers at statement level
+                for node in list(ast.walk(fn)):
+                    if node is not fn and isinstance(node, (ast.FunctionDef, ast.AsyncFunctionDef, ast.ClassDef)):
+                        continue
+                    for field, b in _blocks(node):
+                        i = 0
+                        while i < len(b):
+                            st = b[i]
+                            call = None
+                            if isinstance(st, ast.Expr) and isinstance(st.value, ast.Call):
+                                call = st.value
+                            elif isinstance(st, (ast.Assign, ast.Return)) and isinstance(st.value, ast.Call):
+                                call = st.value
+                            r = resolve(mname, cls, call) if call is not None else None
+                            if r is not None and r[0] is not fn:
+                                shape = _helper_shape(r[0])
+                                mp = bind(r[0], call, r[1]) if shape is not None and shape[0] == 'stmts' else None
+                                if mp is not None:
+                                    # parameters that the helper rebinds cannot be substituted
+                                    stored = {x.id for s_ in shape[1] for x in ast.walk(s_) if isinstance(x, ast.Name) and isinstance(x.ctx, (ast.Store, ast.Del))}
+                                    if not (stored & set(mp)):
+                                        new = [_Subst(mp).visit(_copy.deepcopy(s_)) for s_ in shape[1]]
+                                        if shape[2] is not None:
+                                            rv = _Subst(mp).visit(_copy.deepcopy(shape[2]))
+                                            if isinstance(st, ast.Assign):
+                                                new.append(ast.copy_location(ast.Assign(targets=st.targets, value=rv), st))
+                                            elif isinstance(st, ast.Return):
+                                                new.append(ast.copy_location(ast.Return(value=rv), st))
+                                            elif not pure(rv):
+                                                new.append(ast.copy_location(ast.Expr(value=rv), st))
+                                        elif isinstance(st, ast.Assign):
+                                            new.append(ast.copy_location(ast.Assign(targets=st.targets, value=ast.Constant(value=None)), st))
+                                        elif isinstance(st, ast.Return):
+                                            new.append(ast.copy_location(ast.Return(value=None), st))
+                                        b[i:i + 1] = new
+                                        changed = True
+                                        n_inlined += 1
+                                        i += len(new)
+                                        continue
+                            i += 1
+                if not changed:
+                    break
+            ast.fix_missing_locations(fn)
+    return n_inlined
+
+
 def normalise_package(trees: Dict[str, ast.Module]):
-    pass
+    for tree in trees.values():          # parent links would drag the whole module into every deepcopy
+        for n in ast.walk(tree):
+            n.__dict__.pop('_parent', None)
+    _p1(trees)
+    n = _p2(trees)
+    if n:
+        for tree in trees.values():
+            normalise_local_more(tree)
+            ast.fix_missing_locations(tree)
